@@ -145,7 +145,7 @@ PROPS = {
         "rule": WORLD_RULE, "assumptions": WORLD_ASSUMPTIONS,
     },
     "C04": {
-        "lean_modules": ["Perp.Props.EngineMoney", "Perp.Props.TxLog", "Perp.Props.TxMoney", "Perp.Props.TxFlow", "Perp.Props.SatOpen", "Perp.Props.SatClose", "Perp.Props.SatFree", "Perp.Props.SatB", "Perp.Props.Capstone"],
+        "lean_modules": ["Perp.Props.EngineMoney", "Perp.Props.TxLog", "Perp.Props.TxMoney", "Perp.Props.TxFlow", "Perp.Props.SatOpen", "Perp.Props.SatClose", "Perp.Props.SatFree", "Perp.Props.SatB", "Perp.Props.Capstone", "Perp.Props.SatExtra"],
         "runs": lambda tier, seed: world_runs(tier, seed),
         "rule": WORLD_RULE, "assumptions": WORLD_ASSUMPTIONS,
     },
@@ -175,13 +175,13 @@ PROPS = {
         "rule": WORLD_RULE, "assumptions": WORLD_ASSUMPTIONS,
     },
     "C16": {
-        "lean_modules": ["Perp.Props.EngineGuards", "Perp.Props.WorldInv", "Perp.Props.G9Restr", "Perp.Props.WorldMore", "Perp.Props.SatC", "Perp.Props.Capstone", "Perp.Props.CapClose"],
+        "lean_modules": ["Perp.Props.EngineGuards", "Perp.Props.WorldInv", "Perp.Props.G9Restr", "Perp.Props.WorldMore", "Perp.Props.SatC", "Perp.Props.Capstone", "Perp.Props.CapClose", "Perp.Props.SatExtra"],
         "runs": lambda tier, seed: world_runs(tier, seed),
         "rule": WORLD_RULE, "assumptions": WORLD_ASSUMPTIONS,
     },
     "C13": {
-        "lean_modules": ["Perp.Props.LiqTwin", "Perp.Props.SatGTwin", "Perp.Props.SatGDeposit", "Perp.Props.SatGRun", "Perp.Props.SatGLedger", "Perp.Props.SatGOpen", "Perp.Props.SatGClose", "Perp.Props.SatGOpenTx", "Perp.Props.SatGCloseTx", "Perp.Props.SatGWitness", "Perp.Props.SatG"],
-        "runs": lambda tier, seed: twin_runs(tier, seed),
+        "lean_modules": ["Perp.Props.LiqTwin", "Perp.Props.SatGTwin", "Perp.Props.SatGDeposit", "Perp.Props.SatGRun", "Perp.Props.SatGLedger", "Perp.Props.SatGOpen", "Perp.Props.SatGClose", "Perp.Props.SatGOpenTx", "Perp.Props.SatGCloseTx", "Perp.Props.SatGWitness", "Perp.Props.SatG", "Perp.Props.SatExtra"],
+        "runs": lambda tier, seed: twin_runs(tier, seed) + world_runs(tier, seed, q=120, qn=2, t=1200, tn=6),
         "rule": WORLD_RULE + " || twin mode: two deployments identical except the collateral (cw20 vs native, 6 decimals) driven in lock-step; each native call attaches exactly what the cw20 run pulled from the caller; after every operation positions, vAMM state, engine state and per-account balance deltas are compared",
         "assumptions": WORLD_ASSUMPTIONS,
     },
